@@ -17,6 +17,7 @@ type Plan struct {
 	Out         *Out
 	Types       []*TypeEntry // generated inspectors (shipped, fresh, grammar)
 	ReflectOnly []*TypeEntry // declared shapes without a generated inspector (C02: ReflectInspector)
+	Conly       []*TypeEntry // compile-only shapes (`[]uint8` spellings), driven by hand-written records (C03)
 	Lib         []*TypeEntry // built-in inspectors
 }
 
@@ -94,7 +95,7 @@ func Main() {
 		o.DeclareTypes(reflOnly)
 	}
 	o.DeclareTypes(Builtins)
-	run(&Plan{Prop: *prop, Tier: *tier, Seed: *seed, Out: o, Types: Registry, ReflectOnly: reflOnly, Lib: Builtins})
+	run(&Plan{Prop: *prop, Tier: *tier, Seed: *seed, Out: o, Types: Registry, ReflectOnly: reflOnly, Conly: Conly, Lib: Builtins})
 	if err := o.Close(); err != nil {
 		fmt.Fprintln(os.Stderr, err)
 		os.Exit(2)
